@@ -25,6 +25,9 @@ var (
 	// ErrEmptyMessage is returned for a payload that decodes to no message at
 	// all (JSON null), which would otherwise be dereferenced as a nil pointer.
 	ErrEmptyMessage = errors.New("message payload is empty")
+	// ErrSwapIdInUse is returned for a swap request that reuses the id of a
+	// swap that is already known (active or stored).
+	ErrSwapIdInUse = errors.New("swap id is already in use")
 )
 
 type ErrMinimumSwapSize uint64
@@ -566,12 +569,34 @@ func (s *SwapService) estimateMaximumSwapAmountSat(chain string) (uint64, error)
 	return 0, errors.New("invalid chain")
 }
 
+// swapIdInUse returns true if a swap with the given id is active or stored. A
+// new swap must never take over the id (and with it the stored record) of an
+// existing one.
+func (s *SwapService) swapIdInUse(swapId *SwapId) (bool, error) {
+	if _, err := s.GetActiveSwap(swapId.String()); err == nil {
+		return true, nil
+	}
+	_, err := s.swapServices.swapStore.GetData(swapId.String())
+	if err == nil {
+		return true, nil
+	}
+	if errors.Is(err, ErrDataNotAvailable) {
+		return false, nil
+	}
+	return false, err
+}
+
 // OnSwapInRequestReceived creates a new swap-in process and sends the event to the swap statemachine
 func (s *SwapService) OnSwapInRequestReceived(swapId *SwapId, peerId string, message *SwapInRequestMessage) error {
 	var (
 		premiumValue int64
 		err          error
 	)
+	if inUse, err := s.swapIdInUse(swapId); err != nil {
+		return err
+	} else if inUse {
+		return ErrSwapIdInUse
+	}
 	// Network is the desired on-chain network to use. This can be:
 	// Bitcoin: mainnet, testnet, signet, regtest
 	// Liquid: The field is left blank as the asset id also defines the bitcoinNetwork.
@@ -683,6 +708,11 @@ func (s *SwapService) OnSwapOutRequestReceived(swapId *SwapId, peerId string, me
 		premiumValue int64
 		err          error
 	)
+	if inUse, err := s.swapIdInUse(swapId); err != nil {
+		return err
+	} else if inUse {
+		return ErrSwapIdInUse
+	}
 	// Network is the desired on-chain network to use. This can be:
 	// Bitcoin: mainnet, testnet, signet, regtest
 	// Liquid: The field is left blank as the asset id also defines the bitcoinNetwork.
